@@ -205,7 +205,7 @@ def check_library(case, b):
     from vermouth.pdb import write_pdb
     from vermouth.processors.name_moltype import NameMolType
     system = build(case)
-    NameMolType(deduplicate=case['dedup']).run_system(system)
+    util.shared(NameMolType, deduplicate=case['dedup']).run_system(system)
     names = [m.meta['moltype'] for m in system.molecules]
     b.hits += 1
     # (iv) same name => identical topology text when written alone
